@@ -1014,13 +1014,24 @@ class Repository(controldir.ControlComponent, _RelockDebugMixin):
                 old_tree = self.revision_tree(_mod_revision.NULL_REVISION)
             else:
                 old_tree = trees[revision.parent_ids[0]]
-            intertree = InterTree.get(old_tree, trees[revision.revision_id])
+            new_tree = trees[revision.revision_id]
+            intertree = InterTree.get(old_tree, new_tree)
             yield intertree.compare(specific_files=specific_files)
             if specific_files is not None:
-                specific_files = [
+                # Follow the paths back to the lefthand parent. The next
+                # revision is not necessarily that parent (merged revisions
+                # are interleaved), so a path may be absent from this
+                # revision's tree: keep looking for it unchanged.
+                present = [p for p in specific_files if new_tree.is_versioned(p)]
+                followed = [
                     p
-                    for p in intertree.find_source_paths(specific_files).values()
+                    for p in intertree.find_source_paths(present).values()
                     if p is not None
+                ]
+                specific_files = followed + [
+                    p
+                    for p in specific_files
+                    if p not in present and p not in followed
                 ]
 
     def store_revision_signature(self, gpg_strategy, plaintext, revision_id):
